@@ -82,6 +82,77 @@ func (cx *Ctx) xsBoolHelpers() map[*ssa.Function]bool {
 	return out
 }
 
+// xsBoolCanonicalisers: module functions func(string) string that hand back the canonical lexical form of an xs:boolean
+// without changing what it says: on every path the result is the parameter itself, a true form ("true" / "1") under
+// the positive outcome of a verified complete truth test of the parameter, or some other constant under its negative
+// outcome (or for the empty parameter). What such a function returns is true exactly when the enforcement - which
+// goes through the same verified test - takes the configured value for true.
+func (cx *Ctx) xsBoolCanonicalisers() map[*ssa.Function]bool {
+	if cx.xsCanon != nil {
+		return cx.xsCanon
+	}
+	out := map[*ssa.Function]bool{}
+	cx.xsCanon = out
+	helpers := cx.xsBoolHelpers()
+	fx := cx.Fx
+	for _, fn := range cx.W.Funcs {
+		sig := fn.Signature
+		if fn.Parent() != nil || sig.Params().Len() != 1 || sig.Results().Len() != 1 || !isStringType(sig.Params().At(0).Type()) || !isStringType(sig.Results().At(0).Type()) {
+			continue
+		}
+		aps, ok := fx.atomPaths(fn, 64)
+		if !ok || len(aps) == 0 {
+			continue
+		}
+		good, sawTrue, sawOther := true, false, false
+		for i := range aps {
+			p := &aps[i]
+			if p.Ret == nil {
+				continue
+			}
+			rv := fx.retVal(p, 0)
+			if rv == ssa.Value(fn.Params[0]) {
+				continue
+			}
+			k, isK := constString(rv)
+			if !isK {
+				good = false
+				break
+			}
+			pos, neg, empty := false, false, false
+			for _, a := range p.Atoms {
+				if strings.HasPrefix(a.Op, "CALL:") {
+					if c, isC := stripNot(a.Cond).(*ssa.Call); isC && calleeOf(c) != nil && helpers[calleeOf(c)] && len(c.Call.Args) == 1 && c.Call.Args[0] == ssa.Value(fn.Params[0]) {
+						if a.Neg {
+							neg = true
+						} else {
+							pos = true
+						}
+					}
+				}
+				if a.Op == "EMPTY" && !a.Neg && a.A == fx.path(fn.Params[0]) {
+					empty = true
+				}
+			}
+			if k == "true" || k == "1" {
+				sawTrue = true
+				if !pos {
+					good = false
+				}
+			} else {
+				sawOther = true
+				if !neg && !empty {
+					good = false
+				}
+			}
+		}
+		if good && sawTrue && sawOther {
+			out[fn] = true
+		}
+	}
+	return out
+}
+
 // checkXSBool (R-XSBOOL): every comparison of an xs:boolean string field with a constant, anywhere in the
 // module, happens inside a verified complete helper; and every helper call on such a field is to a verified one.
 func (cx *Ctx) checkXSBool(r *Report, rule string, only map[string]bool) {
@@ -136,6 +207,8 @@ func (cx *Ctx) checkXSBool(r *Report, rule string, only map[string]bool) {
 						cal := calleeOf(x)
 						if cal != nil && helpers[cal] {
 							r.Ok(rule, k+"@"+w.FuncKey(fn), w.InstrPos(x), "tested through "+w.FuncKey(cal)+", verified to accept exactly \"true\" and \"1\"")
+						} else if cal != nil && cx.xsBoolCanonicalisers()[cal] {
+							r.Ok(rule, k+"@"+w.FuncKey(fn), w.InstrPos(x), "canonicalised by "+w.FuncKey(cal)+": a true form exactly under the verified complete truth test of the value")
 						} else {
 							r.Fail(rule, k+"@"+w.FuncKey(fn), w.InstrPos(x), fmt.Sprintf("xs:boolean attribute %s is passed to %s, which is not a verified complete truth test (\"true\" or \"1\")", k, calleeName(x)))
 						}
